@@ -13,7 +13,7 @@ pub const RULE: &str = "model-based: valid writer call sequences (Start known-si
 the model tracks the open stack with known/unknown flags and the tags accepted so far. After EVERY call on a recording destination D: D extends the previous D (never retracted or altered) and is a prefix of the final output; \
 after a successful leaf / Full / End while the model has no known-size master open, the strict iterator over D yields exactly the accepted tags followed by the Ends of the still-open (unknown-size) masters innermost first; \
 while a known-size master is open, len(D) <= the offset of the outermost such master's first byte in the final output; after flush()/into_inner() D parses to all tags with all Ends. \
-Non-trivial: the sequence has an unknown-size master with >= 2 element writes inside it and later a known-size master; distinct by the op sequence.";
+Non-trivial: both invariants were exercised by the sequence — the destination was parsed after a completed write while an unknown-size master was still open, and a known-size master was open at some point (or: an unknown-size master with >= 2 element writes inside it and later a known-size master); distinct by the op sequence.";
 
 pub const ASSUMPTIONS: &[&str] = &[
     "failing calls are C19's business: every call here is valid by construction",
@@ -106,6 +106,7 @@ fn stage(i: &Input, c: &mut Case) -> Result<(), String> {
         let mut prev = Vec::new();
         let mut writes_in_unknown = 0;
         let mut pattern = false;
+        let mut complete_inside_unknown = false;
         for (k, op) in ops.iter().enumerate() {
             let outer_known_before = open.iter().position(|o| o.1);
             if ops_f[k].1 {
@@ -188,6 +189,9 @@ fn stage(i: &Input, c: &mut Case) -> Result<(), String> {
                     format!("after call #{} {}: {}\n  destination holds: {}\n  observed: {}\n  ops so far: {}", k, applied[k].short(), m, hex(&dnow[..dnow.len().min(200)]), render_obs(&obs), render_ops(&applied[..=k]))
                 })?;
                 c.label("complete_prefix_checked");
+                if !open.is_empty() {
+                    complete_inside_unknown = true;
+                }
             }
             snapshots.push(dnow.clone());
             prev = dnow;
@@ -237,7 +241,8 @@ fn stage(i: &Input, c: &mut Case) -> Result<(), String> {
             }
             c.label("known_open_checked");
         }
-        c.nontrivial = pattern;
+        c.nontrivial = pattern || (complete_inside_unknown && !known_open_marks.is_empty());
+        c.label_if(complete_inside_unknown, "complete_prefix_checked_inside_open_unknown_size_master");
         c.label_if(pattern, "unknown_then_writes_then_known");
         c.label_if(use_into_inner, "into_inner");
         c.label_if(cut < all_ops.len(), "flush_with_open_masters");
